@@ -602,11 +602,17 @@ func (e *Engine) verifyFunctionCase(fn *ssa.Function, ct *Contract, mode Mode, s
 	if ct.Flags["cover-each-case"] {
 		e.noCover = true // only the precondition is covered per case; a case may legitimately never return
 	}
+	e.returnsSeen = 0
 	e.run(s, nil)
+	if e.returnsSeen == 0 && !ct.Flags["cover-each-case"] && !ct.Flags["never-returns"] {
+		// no path reached a return: every postcondition would hold vacuously
+		e.obligs = append(e.obligs, &Oblig{Name: fmt.Sprintf("%s/%s/cover@return", funcKey(fn), mode), Func: funcKey(fn), Mode: mode, Kind: "cover", Hyps: []*Term{BoolC(false)}, Goal: nil, Expect: "sat", Props: ct.Props, Src: "no path of the function reaches a return"})
+	}
 	return nil
 }
 
 func (e *Engine) atReturn(s *State, f *Frame, res []Value, pos token.Pos) {
+	e.returnsSeen++
 	ct := f.contract
 	if ct == nil {
 		return
@@ -887,6 +893,34 @@ func (e *Engine) builtin(s *State, f *Frame, x *ssa.Call, name string, args []Va
 				e.store(s, p, nv, x.Pos())
 			}
 			return VInt{Ite(Le(src.Len, Int64C(n)), src.Len, Int64C(n))}
+		}
+		if dst.Obj != nil {
+			// general case: one sequence update  dst[k] = src[k] for 0 <= k < min(len(dst), len(src))
+			n := Ite(Le(dst.Len, src.Len), dst.Len, src.Len)
+			oldSeq := e.sliceSeq(s, dst)
+			srcSeq := e.sliceSeq(s, src)
+			dOff, sOff := dst.Off, src.Off
+			nseq := &Seq{Sym: func(j *Term) Value {
+				in := And(Le(dOff, j), Lt(j, Add(dOff, n)))
+				sv, ok1 := srcSeq.at(Add(Sub(j, dOff), sOff))
+				ov, ok2 := oldSeq.at(j)
+				switch {
+				case ok1 && ok2:
+					return mergeValues(in, sv, ov)
+				case ok1:
+					return sv
+				case ok2:
+					return ov
+				}
+				panic(pathEnd{"copy: index out of range"})
+			}, Desc: "copy"}
+			p := VPtr{Obj: dst.Obj}
+			e.recordWrite(s, probe, p)
+			if _, isSeq := s.heap[dst.Obj].(*Seq); !isSeq {
+				panic(execError{"copy into a fixed-size array with symbolic length"})
+			}
+			s.heap[dst.Obj] = nseq
+			return VInt{n}
 		}
 		panic(execError{"copy with symbolic lengths unsupported"})
 	case "print", "println":
